@@ -107,6 +107,17 @@ func cmdCheck(args []string) int {
 		return 0
 	}
 
+	if id == "C14" || id == "C01" {
+		gp, notes, gerr := generateAPIHarness()
+		if gerr != nil {
+			return fail("API enumeration failed: " + gerr.Error())
+		}
+		extraHarness = append(extraHarness, gp)
+		defer os.RemoveAll(filepath.Dir(gp))
+		for _, n := range notes {
+			fmt.Printf("NOTE property=%s %s\n", id, n)
+		}
+	}
 	l, err := load()
 	if err != nil {
 		return fail("harness does not compile against this tree: " + strings.ReplaceAll(truncate(err.Error(), 600), "\n", " | "))
